@@ -157,13 +157,34 @@ def run(tier, replay=None):
         for prefill in (0, 1, 2):
             scns.append(igz.scenario(len(scns), "deflate", dinp, level=level, wrap=[0, 3][level % 2], lbuf=3, mem=0, prefill=prefill + 256, dictmode=2, dct=dct, calls=[[len(dinp), 1 << 16, 0, 1]], tail_ao=1 << 16, cap=50, meta={"group": k}))
         k += 1
+    # ... and of the decompressor state: valid streams and streams whose code set is incomplete and whose data uses an unassigned code (what the
+    # decoder's lookup tables hold for codes nobody assigned must not come from the structure's earlier contents), one-shot and streaming
+    import defgen
+    istreams = [defgen.make_stream(rng, ["dynamic15", "dynamic15"], fault=f_, fault_block=1) for f_ in ("use_undefined_ll", "use_undefined_dist", "use_undefined_ll", "use_undefined_dist")]
+    istreams += [defgen.make_stream(rng, pl) for pl in (["dynamic"], ["fixed", "dynamic15"], ["stored", "dynamic"])]
+    bw = defgen.BitWriter()       # a tiny incomplete code: 'A' = 00, end-of-block = 01, codes 10 / 11 unassigned; data: A, (11), end-of-block
+    bw.bits(1, 1); bw.bits(2, 2); bw.bits(0, 5); bw.bits(0, 5); bw.bits(14, 4)
+    cl = [0] * 19; cl[0] = 1; cl[2] = 2; cl[18] = 2          # code-length code: symbol 0 -> 1 bit, 2 and 18 -> 2 bits
+    for sym in defgen.CL_ORDER[:18]: bw.bits(cl[sym], 3)
+    clc = defgen.canon(cl)
+    def put(sym, extra=None, n=0):
+        bw.code(clc[sym], cl[sym])
+        if extra is not None: bw.bits(extra, n)
+    put(18, 65 - 11, 7); put(2); put(18, 138 - 11, 7); put(18, 256 - 66 - 138 - 11, 7); put(2); put(0)      # lengths: 65 zeros, 'A'=2, 190 zeros, EOB=2, one distance code of length 0
+    bw.bits(0, 2); bw.bits(3, 2); bw.bits(2, 2)               # 'A' (00), unassigned (11), end-of-block (01 written MSB first = bits 0,1)
+    istreams.append(bw.done())
+    for st in istreams:
+        for api, calls, ta, to in (("inflate_stateless", [[len(st), 1 << 16, 0, 0]], len(st), 1 << 16), ("inflate", [], 3, 7)):
+            for prefill in (0, 1, 2):
+                scns.append(igz.scenario(len(scns), api, list(st), wrap=0, calls=calls, tail_ai=ta, tail_ao=to, cap=3000, mem=0, prefill=prefill + 256, meta={"group": k}))
+            k += 1
     tf = igz.run_harness(scns, wd, "prefill")
     recs, summ, by = igz.merge(scns, tf)
     def obsv(i): return [x for c in by[i]["calls"] for x in ([c["ret"], c["c"], c["p"]] + c["out"])]
     for g in range(k):
         ids = [s["scn"] for s in scns if s["meta"]["group"] == g]
         for other in ids[1:]:
-            pairs.append(("deflate-prefill-independent|level %d" % scns[ids[0]]["level"], obsv(ids[0]), obsv(other), {"pair": [igz.describe(scns[ids[0]]), igz.describe(scns[other])], "seed": seed()}))
+            pairs.append((("inflate-prefill-independent|%s" % ["", "", "isal_inflate", "isal_inflate_stateless"][scns[ids[0]]["api"]]) if scns[ids[0]]["api"] in (2, 3) else "deflate-prefill-independent|level %d" % scns[ids[0]]["level"], obsv(ids[0]), obsv(other), {"pair": [igz.describe(scns[ids[0]]), igz.describe(scns[other])], "seed": seed()}))
     npairs = c17.equal_pairs(v, pairs, wd, "c15")
     cov = {"states": m1["distinct"], "transitions": m1["generated"], "traces_validated_against_impl": len(runs) + cold + npairs, "evaluations": len(runs) + cold + npairs,
            "distinct_nontrivial": npairs + cold, "dispatch_slots_checked": nslots, "mt_runs": runs, "cold_start_processes": cold, "determinism_pairs": npairs,
